@@ -1,4 +1,5 @@
 import CattrsModel.Dispatch.LemmasHist
+import CattrsModel.Dispatch.LocsLemmas
 /-!
 # C18 — copy() behaves identically at copy time; converters are isolated afterwards
 
@@ -17,9 +18,16 @@ Hypotheses and why:
 * `cfg'.single = cfg.single` (override theorem only) — the constructor's class registrations do not depend on the
   options (true for the code: `str/bytes/int/float/Enum/Path`).
 
-The store is a value model: that a copy shares no mutable table with its original is true of the model by
-construction; for the code it is established by the correspondence check and the isolation oracle (a registry
-copied by reference is caught there).  `C18_isolation` is the frame property of the model's operations.
+`Store` is a value model: that a copy shares no mutable table with its original is true THERE by construction.
+The identity layer (`Dispatch/Locs.lean`, theorems at the end of this file) does not take it for granted: the five
+mutable containers of a hook table are locations in a heap, operations mutate through locations, `copy` is
+transcribed from `BaseConverter.copy` / `copy_to` statement by statement.  `C18_no_shared_locations`: after any store
+history distinct converters share no location; `C18_frame_locations`: an operation writes only locations of the
+converter it is addressed to; `C18_isolation_from_locations`: hence isolation (derived from these two, not from the
+value model); `C18_heap_refines_store`: reading the heap store back IS the value store `srun`, so
+`C18_isolation_derived` re-obtains `C18_isolation` for every reachable store; `C18_shared_registry_witness`: with a
+class registry copied BY REFERENCE an operation on the copy changes the original.  The check compares the identity
+pattern of the real containers (`id()`) with the model's locations (corr:C18:LOCS).
 -/
 namespace CattrsModel
 open Dispatch
@@ -222,4 +230,89 @@ theorem C18_skip_zero_witness :
    [.regPred { pred := .tbl 1, kind := .plain, tag := 4 }], 4, rfl, by decide⟩
 
 end C18ex
+
+/-! ## isolation at the level of object identities -/
+open Dispatch.Locs
+
+/-- **C18_no_shared_locations.**  Start from any freshly constructed converters and run ANY store history
+(operations on any converter, copies with any overrides, copies of copies).  Every converter owns five distinct,
+allocated containers (class registry, predicate list, union registry, direct table, lru), and two distinct converters
+— in particular a copy and its source — have no container in common. -/
+theorem C18_no_shared_locations (F : Facts) (cfgs : List Cfg) (ops : List SOp) :
+    let σ := hrun F (HStore.fresh cfgs) ops
+    (∀ (i : Nat) (c : Conv), σ.convs[i]? = some c → c.locs.Nodup ∧ ∀ l ∈ c.locs, l < σ.heap.next) ∧
+    (∀ (i j : Nat) (ci cj : Conv), i ≠ j → σ.convs[i]? = some ci → σ.convs[j]? = some cj →
+      ∀ l ∈ ci.locs, l ∉ cj.locs) := by
+  intro σ
+  have w := hrun_WFS F ops _ (fresh_WFS F cfgs)
+  exact ⟨fun i c hc => ⟨w.own i c hc, w.bound i c hc⟩, w.disj⟩
+
+/-- **C18_frame_locations** (frame rule).  An operation addressed to converter `j` changes the heap only at locations
+of converter `j`; `copy` changes no location that existed before. -/
+theorem C18_frame_locations (F : Facts) (σ : HStore) (op : SOp) (l : Nat) (hl : l < σ.heap.next)
+    (hnot : ∀ j c, op.target = some j → σ.convs[j]? = some c → l ∉ c.locs) :
+    (hstep F σ op).heap.assoc l = σ.heap.assoc l ∧ (hstep F σ op).heap.ents l = σ.heap.ents l :=
+  hstep_frame F σ op l hl hnot
+
+/-- **C18_isolation_from_locations.**  Isolation derived from the two theorems above: after any history `pre`, any
+operations none of which is addressed to converter `i` leave `i`'s handle and the contents of all its containers —
+hence everything it answers — as they were. -/
+theorem C18_isolation_from_locations (F : Facts) (cfgs : List Cfg) (pre ops : List SOp) (i : Nat)
+    (h : ∀ op ∈ ops, op.target ≠ some i) :
+    let σ := hrun F (HStore.fresh cfgs) pre
+    i < σ.convs.length → (hrun F σ ops).readAll[i]? = σ.readAll[i]? := by
+  intro σ hi
+  have w := hrun_WFS F pre _ (fresh_WFS F cfgs)
+  have hc : σ.convs[i]? = some σ.convs[i] := List.getElem?_eq_getElem hi
+  obtain ⟨h1, h2⟩ := hrun_isolated F ops σ w i _ hc h
+  rw [readAll_getElem?, readAll_getElem?, h1, hc]
+  exact congrArg some (read_of_frame _ _ _ h2)
+
+/-- **C18_heap_refines_store.**  Reading the heap store back gives exactly the value store of `Model.lean`: every
+theorem about `srun` (C18_copy_same_anywhere, C18_isolation, …) is a theorem about the heap store. -/
+theorem C18_heap_refines_store (F : Facts) (cfgs : List Cfg) (ops : List SOp) :
+    (hrun F (HStore.fresh cfgs) ops).readAll = srun F (cfgs.map init) ops := by
+  rw [hrun_readAll F ops _ (fresh_WFS F cfgs), fresh_readAll cfgs F]
+
+/-- **C18_isolation_derived.**  `C18_isolation` for every store reachable from fresh converters, obtained from the
+identity layer (no shared locations + frame rule + refinement) instead of from the value model's frame lemma. -/
+theorem C18_isolation_derived (F : Facts) (cfgs : List Cfg) (pre ops : List SOp) (i : Nat)
+    (hi : i < (srun F (cfgs.map init) pre).length) (h : ∀ op ∈ ops, op.target ≠ some i) :
+    (srun F (srun F (cfgs.map init) pre) ops)[i]? = (srun F (cfgs.map init) pre)[i]? := by
+  have e1 := C18_heap_refines_store F cfgs pre
+  have e2 : (hrun F (hrun F (HStore.fresh cfgs) pre) ops).readAll = srun F (srun F (cfgs.map init) pre) ops := by
+    rw [hrun_readAll F ops _ (hrun_WFS F pre _ (fresh_WFS F cfgs)), e1]
+  have hi' : i < (hrun F (HStore.fresh cfgs) pre).convs.length := by
+    have := congrArg List.length e1
+    simp only [HStore.readAll, List.length_map] at this
+    omega
+  have := C18_isolation_from_locations F cfgs pre ops i h hi'
+  rw [← e2, ← e1]
+  exact this
+
+/-- **C18_shared_registry_witness** (negative witness).  What a regression to "copy the class registry by reference"
+looks like: the location sets of source and copy overlap, and registering a hook for class 0 on the COPY changes what
+the ORIGINAL answers for class 0; with `copy` as transcribed from the code the sets are disjoint and the original
+keeps its answer. -/
+theorem C18_shared_registry_witness :
+    let σ0 := HStore.fresh [C18ex.cfg]
+    let byRef := hstepWith copyByRef C18ex.F σ0 (.copy 0 C18ex.cfg)
+    let good := hstep C18ex.F σ0 (.copy 0 C18ex.cfg)
+    byRef.convs.map Conv.locs = [[0, 1, 2, 3, 4], [0, 10, 7, 8, 9]] ∧
+    good.convs.map Conv.locs = [[0, 1, 2, 3, 4], [5, 10, 7, 8, 9]] ∧
+    (σ0.readAll[0]?.map (fun s => (dispatch C18ex.F s 0).2)) = some (.made 200 0 false []) ∧
+    ((hstepWith copyByRef C18ex.F byRef (.on 1 (.regHook 0 8))).readAll[0]?.map (fun s => (dispatch C18ex.F s 0).2))
+      = some (.user 8) ∧
+    ((hstep C18ex.F good (.on 1 (.regHook 0 8))).readAll[0]?.map (fun s => (dispatch C18ex.F s 0).2))
+      = some (.made 200 0 false []) := by
+  decide
+
+/-- non-vacuity of the identity layer: a store with a copy of a copy; locations pairwise disjoint, read-back = `srun` -/
+example :
+    let ops : List SOp := [.on 0 (.regHook 0 1), .copy 0 C18ex.cfg', .on 1 (.regHook 1 2), .copy 1 C18ex.cfg, .on 2 (.call 3)]
+    let σ := hrun C18ex.F (HStore.fresh [C18ex.cfg]) ops
+    σ.convs.map Conv.locs = [[0, 1, 2, 3, 4], [5, 10, 7, 8, 9], [11, 16, 13, 14, 15]] ∧
+    σ.readAll.map (fun s => (dispatch C18ex.F s 1).2) = (srun C18ex.F [init C18ex.cfg] ops).map (fun s => (dispatch C18ex.F s 1).2) := by
+  decide
+
 end CattrsModel
